@@ -100,6 +100,31 @@ func genC05(tier string, r *rng) {
 	if tier == "thorough" {
 		reps = 40
 	}
+	// a reader that has an extension attached but whose State does not say extensions were
+	// negotiated: every RSV bit is still refused, at the frame that carries it
+	for _, server := range []bool{true, false} {
+		st := sideOf(server)
+		for rsv := 1; rsv < 8; rsv++ {
+			for pos := 0; pos < 4; pos++ {
+				b := func(i int) byte {
+					if i == pos {
+						return byte(rsv)
+					}
+					return 0
+				}
+				fs := []gframe{
+					{true, b(0), ws.OpText, []byte("one")},
+					{false, b(1), ws.OpBinary, []byte("ab")},
+					{true, b(2), ws.OpPing, []byte("p")},
+					{true, b(3), ws.OpContinuation, []byte("cd")},
+					{true, 0, ws.OpText, []byte("AFTER")},
+				}
+				enc := encodeStream(fs, server, r)
+				run(fmt.Sprintf("rdr %d ext,inter %s %d E nf st ra st nf st ra st nf st ra st", st, hx(enc), (rsv+pos)%3))
+				run(fmt.Sprintf("rdr %d ext,utf8 %s %d E nf st ra st nf st ra st nf st ra st", st, hx(enc), (rsv+pos+1)%3))
+			}
+		}
+	}
 	for rep := 0; rep < reps; rep++ {
 		for _, server := range []bool{true, false} {
 			st := sideOf(server)
@@ -234,6 +259,12 @@ func genC16r(tier string, r *rng) {
 				// control payload (NextFrame drains it itself)
 				cfg2 := []string{"utf8", "utf8,interlazy", "utf8,interone"}[(cut+fi)%3]
 				run(fmt.Sprintf("rdr %d %s %s %d %s %s", st, cfg2, hx(enc[:cut]), []int{0, 1, 5}[(cut+i+1)%3], fin, scriptFor(nm+1, r)))
+				// the message skipped rather than read, from a source that has a Discard method of its
+				// own (a *bufio.Reader, what Dialer.Dial and HTTPUpgrader return)
+				if fi < 2 {
+					run(fmt.Sprintf("rdr %d utf8,inter %s %d b%s nf d st nf d st nf d st", st, hx(enc[:cut]), []int{0, 1, 5}[(cut+i)%3], fin))
+					run(fmt.Sprintf("rdd %d %s %s %d b%s %d", st, []string{"T", "B"}[(cut+fi)%2], hx(enc[:cut]), []int{0, 5}[(cut+i)%2], fin, cut))
+				}
 			}
 		}
 	}
@@ -256,6 +287,34 @@ func genC07b(tier string, r *rng) {
 		}
 	}
 	genLongFragment(tier, r)
+	// extensions negotiated (StateExtended): reserved bits on the frames of a text message do not
+	// exempt it from the check - single frame and two fragments, every RSV value
+	for si, s := range samples {
+		if si >= 16 && si%7 != 0 {
+			continue
+		}
+		for _, server := range []bool{true, false} {
+			st := sideOf(server) | int(ws.StateExtended)
+			for rsv := 1; rsv < 8; rsv++ {
+				if tier == "quick" && (si+rsv)%2 == 0 && rsv != 4 {
+					continue
+				}
+				one := encodeStream([]gframe{{true, byte(rsv), ws.OpText, s}, {true, 0, ws.OpText, []byte("z\xc3\xa9")}}, server, r)
+				k := (si + rsv) % 3
+				run(fmt.Sprintf("rm %d %s %d E", st, hx(one), k))
+				run(fmt.Sprintf("rdd %d %s %s %d E %d", st, []string{"D", "T"}[rsv%2], hx(one), k, si))
+				run(fmt.Sprintf("rdr %d utf8,inter %s %d E nf ra st nf ra st", st, hx(one), k))
+				if len(s) >= 2 {
+					a := 1 + (si+rsv)%(len(s)-1)
+					two := encodeStream([]gframe{{false, byte(rsv), ws.OpText, s[:a]}, {true, 0, ws.OpPing, []byte("p")},
+						{true, byte(rsv &^ 4), ws.OpContinuation, s[a:]}, {true, 0, ws.OpText, []byte("ok")}}, server, r)
+					run(fmt.Sprintf("rm %d %s %d E", st, hx(two), k))
+					run(fmt.Sprintf("rdr %d utf8,inter %s %d E nf ra st nf ra st", st, hx(two), k))
+					run(fmt.Sprintf("rdr %d utf8,ext,inter %s %d E nf ra st nf ra st", st, hx(two), k))
+				}
+			}
+		}
+	}
 	for si, s := range samples {
 		for _, server := range []bool{true, false} {
 			st := sideOf(server)
